@@ -75,6 +75,7 @@ type mTCP struct {
 	Closed   bool
 	ClosedAt int64
 	Conn     *TCPConn // the server-side simnet endpoint toward the peer
+	ForeignTried bool  // a ConnectionBind by another user was refused for it
 }
 
 type mAlloc struct {
